@@ -14,7 +14,7 @@ if sys.argv[1] == '--mismatch':
         m = re.search(r'<<"MISMATCH", "(.*)">>', line)
         if not m: continue
         d = json.loads(m.group(1).encode().decode('unicode_escape'))
-        print('MISMATCH at line', d['l'], 'pos', d['pos'], 'cnt', d['cnt'])
+        print('MISMATCH at line', d['l'], 'pos', d['pos'], 'cnt', d['cnt'], 'bad slots', d.get('bad'))
         for e in d['out']:
             print('   expected to', e['to'], ':', hm(e['m']), 'cmp=', e['m']['cmp'])
     sys.exit(0)
